@@ -115,6 +115,8 @@ def _ops():
         "is_allowed_child": lambda r: rule_for(r).is_allowed_child(first_name(r)),
         "is_equal": lambda r: Node.is_equal(pick(r, 9), pick(r, 10)),
         "is_equal_copy": lambda r: Node.is_equal(r, G_copy(r)),
+        "is_equal_twin": lambda r: Node.is_equal(r, _TWINS[id(r)]),             # equal but for how one qualified attribute is spelled
+        "is_equal_twin_rev": lambda r: Node.is_equal(_TWINS[id(r)], r),
         "str": lambda r: str(pick(r, 11)),
         "repr": lambda r: repr(pick(r, 12)),
         "object": lambda r: pick(r, 13).object,
@@ -125,6 +127,7 @@ def _ops():
 
 _COPIES = {}
 _CANDS = {}
+_TWINS = {}
 
 
 def G_candidate(root):
@@ -258,8 +261,18 @@ def record(kind, seed, plan):
     w = World()
     root = make_tree(kind, seed, t)
     w.track_tree(root)
+    # one node carries a qualified attribute under its Clark name {uri}local (lxml's notation; add_extras takes any key),
+    # with the uri bound to a prefix in the node's own map
+    if not isinstance(root.nsmap.get("x"), str):
+        root.add_namespace("x", "urn:x")
+    root.add_extras("{" + str(root.nsmap["x"]) + "}lang", "en")
     _COPIES.clear()
     _COPIES[id(root)] = root.copy()      # registered, but never tracked: excluded from the projection
+    twin = root.copy()
+    twin.extras.pop("{" + str(root.nsmap["x"]) + "}lang", None)
+    twin.add_extras("x:lang", "en")
+    _TWINS.clear()
+    _TWINS[id(root)] = twin
     _CANDS.clear()
     _CANDS[id(root)] = Node(root.children[0].name if root.children else "zz")
     tr = {"init": w.pi(ALLF + ("plink",)), "events": [], "desc": {"tree": kind, "seed": seed, "nodes": len(w.nodes)}}
